@@ -22,7 +22,7 @@ DESIGN_INVS = ["TypeOK", "DecodeRecoversSource", "BranchReach", "RelLands", "Ali
 
 BRANCHES = ["br", "bne", "beq", "bge", "blt", "bgt", "ble", "bpl", "bmi", "bhi", "blos", "bvc", "bvs",
             "bcc", "bhis", "bcs", "blo"]
-ALL_SHAPES = ["dot", "dotdec", "dec", "lbl", "lblp", "lblm", "loc", "locc", "locp", "numlocc", "parlbl"]
+ALL_SHAPES = ["dot", "dotdec", "dec", "lbl", "lblp", "lblm", "loc", "locc", "locp", "numlocc", "parlbl", "lblc"]
 
 
 def tla_set(items):
@@ -73,6 +73,8 @@ def target_text(a, shape, A, label):
         return ". + %d." % k if k >= 0 else ". - %d." % -k
     if shape == "lbl":
         return label
+    if shape == "lblc":
+        return "c" + label               # a symbol the program defines by assignment: c<label> = <label>
     if shape == "lblp":
         return label + "+2"
     if shape == "lblm":
@@ -197,11 +199,16 @@ def render_alone(rec, variant):
     after = [(x, n) for x, n in near if x >= A + L]
     if len(before) + len(here) + len(after) != len(near):
         raise MachineryError(f"label inside the instruction: {rec}")
+    aliases = ["c%s = %s" % (n, n) for n in names if n] if shape == "lblc" else []
+    if variant % 2 == 0:
+        lines += aliases                  # the assignment stands before or after the instruction
     lines += pad_lines(start, A, before)
     for _, n in here:
         lines.append(n + ":")
     lines.append(instr_text(rec, variant, names))
     lines += pad_lines(A + L, A + L + post, after)
+    if variant % 2 == 1:
+        lines += aliases
     return "\n".join(lines) + "\n", start, pre, pre + L + post
 
 
